@@ -142,7 +142,17 @@ impl PlFold for Flattener {
                             ..pipeline
                         });
                     }
-                    kind => (self.fold_expr(*t.input)?, fold_transform_kind(self, kind)?),
+                    kind => {
+                        let input = self.fold_expr(*t.input)?;
+
+                        // a joined or appended sub-pipeline is folded by this same flattener:
+                        // its sort must not replace the sort that is in effect here
+                        let sort = self.sort.clone();
+                        let kind = fold_transform_kind(self, kind)?;
+                        self.sort = sort;
+
+                        (input, kind)
+                    }
                 };
 
                 // In case we're appending or joining another pipeline, we do not want to apply the
